@@ -4,6 +4,7 @@ import (
 	"fmt"
 	"go/token"
 	"go/types"
+	"sort"
 	"strings"
 
 	"golang.org/x/tools/go/ssa"
@@ -18,26 +19,28 @@ func init() {
 		Title:     "CloseNotify fires exactly once when, and only when, the connection is gone",
 		Run:       runC14,
 		Technique: "who-may-close / who-may-write census with must-held lock sets, all-paths (must-pass-through) queries on the loop's exit chain and the copier, select-case exit analysis of library goroutines",
-		Explanation: "Decides on the current source: R1 every close() of the connection's notify channel runs with the connection mutex held, is dominated by a test of the gone flag (or closes a channel freshly made under the nil test) and is followed, before the unlock, by setting the flag; the channel field is assigned only under the mutex on the nil edge; " +
+		Explanation: "Decides on the current source: R1 every close() of the connection's notify channel runs with the connection mutex held, is dominated by a test of the gone flag (or closes a channel freshly made under the nil test) and sets the flag in the same critical section (just before or after the close); the channel field is assigned only under the mutex on the nil edge; " +
 			"R2 every exit of the connection loop (return, error, panic — through the deferred closure that dominates the function) passes on all paths a call chain that reaches a close site of R1; " +
 			"R3 every path through the pipe copier ends with PipeWriter.CloseWithError followed by the notifier, and the loop's exit chain closes a started pipe's read side so the copier cannot stay blocked; " +
-			"R4 the function handing out the channel tests a terminated flag that the exit chain sets under the connection mutex and, on that edge, closes the channel it returns; " +
+			"R4 the function handing out the channel tests a terminated flag that the exit chain sets under the connection mutex and, on that edge, closes the channel it returns; the gone flag itself — which silences every later notification — is stored true only where a channel exists (a != nil guard or a dominating make stored to the field) unless the hand-out function consults it; " +
 			"R5 the reader switch's source field is written only in the switch's Read under the switch mutex (and in constructors), every other switch field only under that mutex, and the copier is started by `go` at most once (the func field is cleared in the same critical section); " +
 			"R6 each library goroutine exits on termination: the connection loop leaves on read error, the copier has no loop of its own, the watchdog's every loop has a select case on the CloseNotify channel whose edge returns. " +
 			"R7 every call of the notifier lies on the loop's exit chain or behind a Close of the transport / of the pipe fed from it on every path of its function, and the Conn implementation's Close closes the transport on every path. " +
 			"R7 the notifier is called only after the transport was closed or its end observed (no notification while the peer can still be served), and a local Close closes the transport on every path so that the loop, hence the notification, follows. " +
 			"R7 also: Close takes no mutex that another function of the library holds while it writes to the transport (a writer stuck on a peer that stopped reading must not keep Close, and with it the termination, from happening). " +
+			"R8 the library's mutexes, abstracted to classes (owner type and field), are never acquired in a cyclic order: for every place where a lock is taken — directly or inside a function reached by plain calls — while another may be held, no chain of such places leads back (a cycle lets two goroutines block each other, so that neither the reader exits nor the notification fires). " +
 			"Not decided: event orderings as executed schedules, io.Pipe/io.Copy internals, SCTP error-handler delivery.",
 		Rules: map[string]string{
 			"R1": "close(notify channel): mutex held, gone-flag test (or fresh channel), flag set after; channel assigned only under mutex when nil",
 			"R2": "every exit of the connection loop must-reaches a close site",
 			"R3": "copier: CloseWithError then notifier on every path; exit chain closes the pipe reader",
-			"R4": "CloseNotify after termination returns an already closed channel (terminated flag set by the exit chain under the mutex)",
+			"R4": "CloseNotify after termination returns an already closed channel (terminated flag set by the exit chain under the mutex); the gone flag becomes true only where a channel exists",
 			"R5": "reader switch ownership: source swapped only inside Read under the switch mutex; copier started at most once",
 			"R6": "library goroutines (loop, copier, watchdog) exit on connection termination",
 			"R7": "the notifier runs only after the transport was closed / its end observed; a local Close closes the transport on every path",
+			"R8": "lock order: among the library's mutex classes (owner type + field) no cycle of 'acquired while the other may be held'",
 		},
-		MinInstances: map[string]int{"R1": 2, "R2": 1, "R3": 2, "R4": 1, "R5": 3, "R6": 3, "R7": 3},
+		MinInstances: map[string]int{"R1": 2, "R2": 1, "R3": 2, "R4": 2, "R5": 3, "R6": 3, "R7": 3, "R8": 1},
 		Assumptions:  []string{"io.Pipe: a closed PipeReader makes PipeWriter.Write return; io.Copy returns when the source fails", "close of a nil or closed channel panics (Go semantics)"},
 	})
 }
@@ -525,6 +528,72 @@ func runC14(c *Ctx) {
 		}
 		r.Role("ReaderSwitch", switchT.Obj().Name()+"{src:"+srcFld+", copier:"+copierFld+", mutex:"+swMu+"}")
 		c.c14Switch(ro, switchT, swapFn, srcFld, copierFld, swMu)
+		// the switch's Read passes the source's verdict on: one Read of the source per call, outside any loop, its
+		// error handed back as it is. The copier reads the same source directly and ends the connection's
+		// notification on the first error it sees; a Read that swallowed or retried an error would leave the loop
+		// running on a connection already announced as gone.
+		{
+			key := fname(switchRead) + ":source-read-once-error-passed-on"
+			loops := flow.Loops(switchRead)
+			var reads []*ssa.Call
+			flow.Instrs(switchRead, func(in ssa.Instruction) {
+				if call, ok := in.(*ssa.Call); ok && call.Call.IsInvoke() && call.Call.Method.Name() == "Read" && flow.TypeIs(call.Call.Value.Type(), "io", "Reader") {
+					reads = append(reads, call)
+				}
+			})
+			switch {
+			case len(reads) == 0:
+				r.Undecided("R5", key, c.fpos(switchRead), "the switch's Read does not read an io.Reader source")
+			default:
+				bad := ""
+				var at ssa.Instruction = reads[0]
+				for _, rd := range reads {
+					if flow.InnermostLoop(loops, rd) != nil {
+						bad, at = "the source is read inside a loop of the switch's Read: an error the copier also sees (and announces as the end of the connection) can be retried here, so the loop outlives the notification", rd
+					}
+				}
+				if bad == "" {
+					isRd := func(v ssa.Value) bool {
+						for _, rd := range reads {
+							if v == ssa.Value(rd) {
+								return true
+							}
+						}
+						return false
+					}
+					flow.Instrs(switchRead, func(in ssa.Instruction) {
+						ret, ok := in.(*ssa.Return)
+						if !ok || ret.Block() == switchRead.Recover || len(ret.Results) != 2 || bad != "" {
+							return
+						}
+						// only returns that follow a source read matter
+						after := false
+						for _, rd := range reads {
+							if flow.Dominates(rd, ret) {
+								after = true
+							}
+						}
+						if !after {
+							return
+						}
+						var srcs []ssa.Value
+						e := ret.Results[1]
+						if ld, isLd := e.(*ssa.UnOp); isLd && ld.Op == token.MUL {
+							srcs = flow.SpillSources(ld)
+						} else {
+							srcs = []ssa.Value{e}
+						}
+						for _, sv := range srcs {
+							ex, isEx := sv.(*ssa.Extract)
+							if !isEx || !isRd(ex.Tuple) {
+								bad, at = "after reading the source the switch's Read returns an error that is not the source's ("+short(sv.String(), 40)+")", ret
+							}
+						}
+					})
+				}
+				r.Check(bad == "", "R5", key, c.pos(at), "one source Read per call, outside loops; its error is returned unchanged", bad)
+			}
+		}
 	}
 
 	// ---- R3 ----
@@ -736,24 +805,39 @@ func runC14(c *Ctx) {
 						return
 					}
 					k := fmt.Sprintf("%s:%s-only-with-channel", fname(f), fld)
-					exists := false
-					for _, g := range flow.Guards(st) {
-						cond, neg := flow.Cond(g.If.Cond, g.Taken)
-						if bo, ok := cond.(*ssa.BinOp); ok {
-							if _, bf, _, ok := flow.FieldOf(bo.X); ok && bf == ro.notifyFld && flow.IsNilConst(bo.Y) && ((bo.Op == token.NEQ) != neg) {
-								exists = true
-							}
-						}
-					}
-					flow.Instrs(f, func(x ssa.Instruction) {
-						if ms, ok := x.(*ssa.Store); ok && flow.Dominates(ms, st) {
-							if _, sf, _, ok := flow.FieldOf(ms.Addr); ok && sf == ro.notifyFld {
-								if _, isMk := ms.Val.(*ssa.MakeChan); isMk {
-									exists = true
+					// existsAt: at instruction at of fn a channel is known to exist
+					existsAt := func(fn *ssa.Function, at ssa.Instruction) bool {
+						for _, g := range flow.Guards(at) {
+							cond, neg := flow.Cond(g.If.Cond, g.Taken)
+							if bo, ok := cond.(*ssa.BinOp); ok {
+								if _, bf, _, ok := flow.FieldOf(bo.X); ok && bf == ro.notifyFld && flow.IsNilConst(bo.Y) && ((bo.Op == token.NEQ) != neg) {
+									return true
 								}
 							}
 						}
-					})
+						found := false
+						flow.Instrs(fn, func(x ssa.Instruction) {
+							if ms, ok := x.(*ssa.Store); ok && flow.Dominates(ms, at) {
+								if _, sf, _, ok := flow.FieldOf(ms.Addr); ok && sf == ro.notifyFld {
+									if _, isMk := ms.Val.(*ssa.MakeChan); isMk {
+										found = true
+									}
+								}
+							}
+						})
+						return found
+					}
+					exists := existsAt(f, st)
+					if !exists && f.Parent() == nil && (f.Object() == nil || !f.Object().Exported()) && !c.addressTaken(f) {
+						// a close-and-mark helper: the channel exists at every one of its call sites
+						css := c.librarySites(f)
+						exists = len(css) > 0
+						for _, cs := range css {
+							if !existsAt(cs.Parent(), cs) {
+								exists = false
+							}
+						}
+					}
 					consulted := false
 					flow.Instrs(hand, func(x ssa.Instruction) {
 						if ifi, ok := x.(*ssa.If); ok {
@@ -766,6 +850,52 @@ func runC14(c *Ctx) {
 					r.Check(exists || consulted, "R4", k, c.pos(st), "the flag that silences later notifications is set only where a channel exists (or the hand-out function consults it)", "the flag "+fld+" that silences every later notification can be set while no notify channel exists, and "+hand.Name()+" does not consult it: a channel requested afterwards is never closed although the connection is gone")
 				})
 			}
+		}
+	}
+
+	// ---- R8: lock order ----
+	c.lockOrder("R8")
+
+	// ---- R6 (exit chain): the clean-up the connection loop runs when it ends does not wait for anybody ----
+	// A wait there (WaitGroup, condition, channel) keeps the loop's goroutine alive after the connection is gone
+	// whenever the party waited for has nothing left to do.
+	{
+		nWait := 0
+		var fs []*ssa.Function
+		for f := range exitChain {
+			fs = append(fs, f)
+		}
+		sort.Slice(fs, func(i, j int) bool { return fname(fs[i]) < fname(fs[j]) })
+		for _, f := range fs {
+			if !c.P.IsLibrary(f) {
+				continue
+			}
+			flow.Instrs(f, func(in ssa.Instruction) {
+				what := ""
+				switch x := in.(type) {
+				case *ssa.Send:
+					what = "a blocking channel send"
+				case *ssa.UnOp:
+					if x.Op == token.ARROW {
+						what = "a blocking channel receive"
+					}
+				case *ssa.Select:
+					if x.Blocking {
+						what = "a blocking select"
+					}
+				case *ssa.Call:
+					if flow.IsCallTo(x, "sync", "WaitGroup", "Wait") || flow.IsCallTo(x, "sync", "Cond", "Wait") {
+						what = "a wait (" + calleeLabel(x) + ")"
+					}
+				}
+				if what != "" {
+					nWait++
+					r.Fail("R6", fname(f)+":exit-chain-waits", c.pos(in), what+" in the clean-up that runs when the connection loop ends: if the awaited party never acts (a copier that was armed but never started, a peer that is gone) the loop's goroutine never exits")
+				}
+			})
+		}
+		if nWait == 0 {
+			r.Ok("R6", "ExitChain:no-waits", "-", fmt.Sprintf("%d functions of the loop's exit chain contain no channel operation or wait", len(fs)))
 		}
 	}
 
